@@ -36,7 +36,9 @@ mut("C13-abort-after-make", "C13", "dummy", (S, "        if !self.is_running() |
 # ---- C10
 mut("C10-start-on-thread", "C10", "flag-writers", (S, "        // Uses a heuristic to determine the maximum time", "        self.running.store(true, Ordering::Relaxed);\n        // Uses a heuristic to determine the maximum time"))
 mut("C10-stop-arm-noop", "C10", "stop-arm", (U, "                    is_running.store(false, std::sync::atomic::Ordering::Relaxed);\n                }\n            }\n            UCICommand::Quit", "                    let _ = is_running;\n                }\n            }\n            UCICommand::Quit"))
-mut("C10-publish-after-spawn", "C10", "publish", (U, "        self.search_running = Some(search.running.clone());\n        self.join_handle = Some(thread::spawn(move || {\n            search.search(&SimpleEvaluator, max_depth);\n        }));", "        let flag = search.running.clone();\n        self.join_handle = Some(thread::spawn(move || {\n            search.search(&SimpleEvaluator, max_depth);\n        }));\n        self.search_running = Some(flag);"))
+mut("C10-publish-after-spawn-on-one-branch", "C10", "publish", (U, "        self.search_running = Some(search.running.clone());\n        self.join_handle = Some(thread::spawn(move || {\n            search.search(&SimpleEvaluator, max_depth);\n        }));", "        let flag = search.running.clone();\n        self.join_handle = Some(thread::spawn(move || {\n            search.search(&SimpleEvaluator, max_depth);\n        }));\n        if max_depth.is_none() {\n            self.search_running = Some(flag);\n        }"))
+# (the earlier form of this mutant stored the flag right after the spawn, unconditionally: go() still returned with the flag
+#  published and no command can be processed in between, so it did not break C10; the rule now says "before go returns")
 mut("C10-go-refused-by-handle", "C10", "go-reaches-spawn", (U, "if !jh.is_finished() && is_running.load(std::sync::atomic::Ordering::Relaxed) {", "if !jh.is_finished() {"))
 mut("C10-bestmove-before-flag", "C10", "flag-cleared-before-bestmove", (S, "        self.stop();\n        self.log(format!(\"bestmove {best_move}\").as_str());", "        self.log(format!(\"bestmove {best_move}\").as_str());\n        self.stop();"))
 mut("C10-loop-drops-while-searching", "C10", "no-swallow", (U, "            self.execute_command(command).unwrap_or_else(|err| {", "            if self.join_handle.as_ref().is_some_and(|j| !j.is_finished()) && matches!(command, UCICommand::Position { .. }) {\n                continue;\n            }\n            self.execute_command(command).unwrap_or_else(|err| {"))
@@ -221,6 +223,13 @@ mut("R-C05-filter-map-piece-loop-stops-at-63", "C05", "components",
     ("src/board/zkey.rs", "            (0..64u8).filter_map(|square| Some((square, board.get_piece(Square::from(square))?)));", "            (0..63u8).filter_map(|square| Some((square, board.get_piece(Square::from(square))?)));"), base=R + "R11-refactor3.diff")
 mut("R-C15-line-iterator-flattens-errors", "C15", "io-exits",
     ("src/uci.rs", "        for line in input.lines().map_while(Result::ok) {", "        for line in input.lines().flatten() {"), base=R + "R10-refactor6.diff")
+
+mut("R-C10-search-task-is-busy-ignores-flag", "C10", "go-reaches-spawn",
+    ("src/uci.rs", "        !self.thread.is_finished() && self.running.load(std::sync::atomic::Ordering::Relaxed)", "        !self.thread.is_finished()"), base=R + "R10-refactor2.diff")
+mut("R-C10-search-task-request-stop-stores-true", "C10", "stop-arm",
+    ("src/uci.rs", "            .store(false, std::sync::atomic::Ordering::Relaxed);", "            .store(true, std::sync::atomic::Ordering::Relaxed);"), base=R + "R10-refactor2.diff")
+mut("R-C15-handle-line-continues-on-quit", "C15", "io-exits",
+    ("src/uci.rs", "            return ControlFlow::Break(());", "            return ControlFlow::Continue(());"), base=R + "R10-refactor2.diff")
 
 
 if __name__ == "__main__":
